@@ -81,10 +81,15 @@ class InternalCompiler(Compiler):
 
         # 1. If we have a constant expression, create if needed and return a constant qubit
         if isinstance(expr, BooleanFalse):
+            if dest is not None:
+                return dest
             if "FALSE" not in qc:
                 qc.add_qubit("FALSE")
             return qc["FALSE"]
         elif isinstance(expr, BooleanTrue):
+            if dest is not None:
+                qc.x(dest)
+                return dest
             if "TRUE" not in qc:
                 qc.add_qubit("TRUE")
                 qc.x(qc["TRUE"])
@@ -96,6 +101,9 @@ class InternalCompiler(Compiler):
 
         # 3. If expr is already been computed, return its index
         elif expr in self.expqmap:
+            if dest is not None and self.expqmap[expr] != dest:
+                qc.cx(self.expqmap[expr], dest)
+                return dest
             return self.expqmap[expr]
 
         # 4. Special mappings section
